@@ -18,13 +18,14 @@ import (
 )
 
 type gfile struct {
-	remote string // path as printed in the dump
-	local  string // local path ("" if absent locally)
-	rel    string
-	imp    string // expected ImportPath when resolved
-	class  stack.Location
-	pkg    string // package path of the frame's symbol (unescaped)
-	name   string
+	remote    string // path as printed in the dump
+	local     string // local path ("" if absent locally)
+	rel       string
+	imp       string // expected ImportPath when resolved
+	class     stack.Location
+	pkg       string // package path of the frame's symbol (unescaped)
+	name      string
+	ambiguous bool // resolvable under two roots: outside the oracle's statement
 }
 
 type layout struct {
@@ -214,6 +215,23 @@ func opGuess(r *rand.Rand, n int, tier string, seed int64) {
 				}
 			}
 		}
+		// overlapping GOPATH roots: one nested under the other's src/ and listed first (ambiguous for the inner files:
+		// not predicted, but the answer must be the same every time and equal to the model's)
+		if r.Intn(5) == 0 {
+			outerL, outerR := base+"/gpo", "/remote/gpo"
+			if r.Intn(2) == 0 {
+				outerR = outerL
+			}
+			innerL, innerR := outerL+"/src/nested", outerR+"/src/nested"
+			l.localGopaths = append([]string{innerL, outerL}, l.localGopaths...)
+			fa, fb, fc := fname(), fname(), fname()
+			l.add(outerL+"/src/pkga/"+fa, "package x\n")
+			l.add(innerL+"/src/foo/"+fb, "package x\n")
+			l.add(outerL+"/src/pkgz/"+fc, "package x\n")
+			frames = append(frames, gfile{remote: outerR + "/src/pkga/" + fa, local: outerL + "/src/pkga/" + fa, rel: "pkga/" + fa, imp: "pkga", class: stack.GOPATH, pkg: "pkga", name: "A"})
+			frames = append(frames, gfile{remote: innerR + "/src/foo/" + fb, class: stack.GOPATH, pkg: "foo", name: "B", ambiguous: true})
+			frames = append(frames, gfile{remote: outerR + "/src/pkgz/" + fc, local: outerL + "/src/pkgz/" + fc, rel: "pkgz/" + fc, imp: "pkgz", class: stack.GOPATH, pkg: "pkgz", name: "Z"})
+		}
 		// local modules (paths are the same remotely and locally)
 		for m := 0; m < r.Intn(3); m++ {
 			root := fmt.Sprintf("%s/proj%d", base, m)
@@ -240,6 +258,10 @@ func opGuess(r *rand.Rand, n int, tier string, seed int64) {
 				p := root + "/" + rel
 				l.add(p, "package x\n")
 				frames = append(frames, gfile{remote: p, local: p, rel: rel, imp: imp, class: stack.GoMod, pkg: "main", name: "M"})
+			}
+			if r.Intn(3) == 0 {
+				// a sibling directory whose name extends the module root's name: not part of the module
+				frames = append(frames, gfile{remote: root + "2/gen/" + fname(), class: stack.LocationUnknown, pkg: "gen", name: "S"})
 			}
 			if r.Intn(3) == 0 {
 				// a module nested in this one: its files belong to the inner module
@@ -269,7 +291,7 @@ func opGuess(r *rand.Rand, n int, tier string, seed int64) {
 		r.Shuffle(len(frames), func(a, b int) { frames[a], frames[b] = frames[b], frames[a] })
 		// a dump of 1..3 goroutines using the frames
 		var d []dGoroutine
-		var exp []string
+		var exp, cexp []string
 		ng := 1 + r.Intn(3)
 		per := (len(frames) + ng - 1) / ng
 		for g := 0; g < ng; g++ {
@@ -277,7 +299,9 @@ func opGuess(r *rand.Rand, n int, tier string, seed int64) {
 			for k := g * per; k < (g+1)*per && k < len(frames); k++ {
 				f := frames[k]
 				gr.Frames = append(gr.Frames, dFrame{Sym: dSym{Pkg: f.pkg, Name: f.name}, File: f.remote, Line: 10 + k})
-				if f.local != "" || f.class == stack.LocationUnknown || f.remote == "/x/_test/_testmain.go" {
+				if f.ambiguous {
+					exp = append(exp, "?")
+				} else if f.local != "" || f.class == stack.LocationUnknown || f.remote == "/x/_test/_testmain.go" {
 					imp := f.imp
 					if f.local == "" {
 						imp = f.pkg
@@ -292,9 +316,23 @@ func opGuess(r *rand.Rand, n int, tier string, seed int64) {
 				exp = append(exp, fmt.Sprintf("0|x|x|%s", hexs([]byte("main"))))
 			}
 			d = append(d, gr)
+			cexp = append(cexp, "-")
+			if r.Intn(2) == 0 {
+				// a creator: either one of the known files or a file under no root (roots are inferred from stack frames only)
+				gi := len(d) - 1
+				if r.Intn(2) == 0 {
+					d[gi].Creator = &dCreator{Sym: dSym{Pkg: "lost", Name: "spawn"}, GID: -1, File: "/remote/elsewhere/src/example.com/lib/pool/pool.go", Line: 5}
+					cexp[gi] = fmt.Sprintf("0|x|x|%s", hexs([]byte("lost")))
+				} else {
+					f := frames[r.Intn(len(frames))]
+					d[gi].Creator = &dCreator{Sym: dSym{Pkg: f.pkg, Name: f.name}, GID: -1, File: f.remote, Line: 3}
+					// resolvable only if the roots it lies under were detected from some stack frame: not predicted here
+					cexp[gi] = "?"
+				}
+			}
 		}
 		txt := printDump(d, dVariant{FileIndent: "\t"}, true)
-		emitGuess(fmt.Sprintf("guess-%d", i), []byte(txt), l, strings.Join(exp, ","))
+		emitGuess(fmt.Sprintf("guess-%d", i), []byte(txt), l, strings.Join(exp, ",")+";"+strings.Join(cexp, ","))
 	}
 }
 
